@@ -259,7 +259,9 @@ def corrected_before_lookup(ctx, rule='A6b'):
         raw = fn.params[1]
         for label, sanit in (('size', {'_correct_vector_size', 'correct_vector_size'}),
                              ('bounds', {'correct_vector_bounds'})):
-            IN, tainted = forward_taint(fn, {raw}, sanitizer=_san(sanit))
+            sn_ = _san(sanit)
+            IN, tainted = forward_taint(fn, {raw}, sanitizer=sn_, tuple_summary=make_tuple_summary(ctx, fn, sn_),
+                                        call_summary=make_call_summary(ctx, fn, sn_))
             cfg = build_cfg(fn)
             found = 0
             for n in cfg.nodes:
